@@ -20,7 +20,8 @@
 //!        0 set_collateral_return_and_total, 1 set_total_collateral_and_return (OUT without datum / script), 2 raw set_collateral_return
 //!   build <cpb> <mvs> <mts> <prefer_pure> I <n> { <coin> MA }* O <n> { OUT }* C ADDR DAT
 //!        -> ok <l0> <fee> <full_size> <nreq> <nout> { <coin> <size> <vsize> }* | { MA of every change output }*
-//!           | err:addout | err:change | toobig <full_size> | err:build
+//!           | err:change A=.. | toobig <full_size> A=.. | err:build A=..      (A=<o|x per requested output>: accepted / refused by add_output;
+//!             a refused add does NOT end the scenario, <nreq> counts the accepted ones)
 //!   entry <cpb> <mvs> <mts> <prefer_pure> I <n> { <coin> MA }* O <n> { OUT }* C ADDR DAT SREF V <via> K <n> { <coin> MA }* P <pct> M <items> <auxlen> <late>
 //!        via 0 add_change_if_needed[_with_datum] | 1 add_inputs_from_and_change (nothing offered: the inputs are set) |
 //!            2 add_inputs_from_and_change_with_collateral_return (collateral inputs K, percentage P)
@@ -320,11 +321,11 @@ fn exec(toks: &[String]) -> String {
                 if tb.add_regular_input(&src, &TransactionInput::new(&TransactionHash::from_bytes(h).unwrap(), i as u32), &v).is_err() { return BAD.into(); }
                 in_total += *c as u128;
             }
-            let mut out_total: u128 = 0;
+            // a refused output does not end the scenario: the caller goes on with the same builder (A= records which adds were accepted)
+            let mut out_total: u128 = 0; let mut mask = String::from("A="); let mut acc = 0usize;
             for (i, od) in outs.iter().enumerate() {
                 let o = match mk_output(od, 20 + i as u8) { Some(o) => o, None => return BAD.into() };
-                if tb.add_output(&o).is_err() { return "err:addout".into(); }
-                out_total += od.coin as u128;
+                if tb.add_output(&o).is_err() { mask.push('x'); } else { mask.push('o'); acc += 1; out_total += od.coin as u128; }
             }
             let caddr = match mk_addr(&akind, alen, 40) { Some(a) => a, None => return BAD.into() };
             let r = match mk_datum(&dat) {
@@ -332,18 +333,18 @@ fn exec(toks: &[String]) -> String {
                 Some(None) => tb.add_change_if_needed(&caddr),
                 Some(Some(d)) => tb.add_change_if_needed_with_datum(&caddr, &d),
             };
-            if let Err(e) = &r { if std::env::var("VERIF_DEBUG").is_ok() { eprintln!("change: {}", e.to_string()); } return "err:change".into(); }
+            if let Err(e) = &r { if std::env::var("VERIF_DEBUG").is_ok() { eprintln!("change: {}", e.to_string()); } return format!("err:change {}", mask); }
             let full = tb.full_size().map(|x| x as i128).unwrap_or(-1);
             match tb.build_tx() {
                 Err(e) => { if std::env::var("VERIF_DEBUG").is_ok() { eprintln!("build_tx: {}", e.to_string()); }
-                            if full > mts as i128 { format!("toobig {}", full) } else { "err:build".into() } }
+                            if full > mts as i128 { format!("toobig {} {}", full, mask) } else { format!("err:build {}", mask) } }
                 Ok(tx) => {
                     let body = tx.body(); let os = body.outputs();
                     let l0 = in_total.saturating_sub(out_total);
-                    let mut s = format!("ok {} {} {} {} {}", l0, u64::from(body.fee()), full, outs.len(), os.len());
+                    let mut s = format!("ok {} {} {} {} {} {}", mask, l0, u64::from(body.fee()), full, acc, os.len());
                     for i in 0..os.len() { let (c, sz, v) = sizes(&os.get(i)); s.push_str(&format!(" {} {} {}", c, sz, v)); }
                     s.push_str(" |");
-                    for i in outs.len()..os.len() { s.push_str(&format!(" {}", show_ma_shape(&shape_of(&os.get(i).amount().multiasset())))); }
+                    for i in acc.min(os.len())..os.len() { s.push_str(&format!(" {}", show_ma_shape(&shape_of(&os.get(i).amount().multiasset())))); }
                     s
                 }
             }
@@ -387,9 +388,10 @@ fn exec(toks: &[String]) -> String {
                 match tb.get_auxiliary_data() { Some(a) => a.to_bytes().len() == auxlen, None => false }
             };
             if items > 0 && !late && !set_meta(&mut tb) { return BAD.into(); }
+            let mut mask = String::from("A="); let mut acc = 0usize;
             for (i, od) in outs.iter().enumerate() {
                 let o = match mk_output(od, 20 + i as u8) { Some(o) => o, None => return BAD.into() };
-                if tb.add_output(&o).is_err() { return "err:addout".into(); }
+                if tb.add_output(&o).is_err() { mask.push('x'); } else { mask.push('o'); acc += 1; }
             }
             let caddr = match mk_addr(&akind, alen, 40) { Some(a) => a, None => return BAD.into() };
             let d = match mk_datum(&dat) { Some(d) => d, None => return BAD.into() };
@@ -403,7 +405,7 @@ fn exec(toks: &[String]) -> String {
                 1 => tb.add_inputs_from_and_change(&TransactionUnspentOutputs::new(), CoinSelectionStrategyCIP2::LargestFirstMultiAsset, &cc).map(|_| ()),
                 _ => tb.add_inputs_from_and_change_with_collateral_return(&TransactionUnspentOutputs::new(), CoinSelectionStrategyCIP2::LargestFirstMultiAsset, &cc, &bn(pct)),
             };
-            if let Err(e) = &r { if std::env::var("VERIF_DEBUG").is_ok() { eprintln!("entry: {}", e.to_string()); } return "err:change".into(); }
+            if let Err(e) = &r { if std::env::var("VERIF_DEBUG").is_ok() { eprintln!("entry: {}", e.to_string()); } return format!("err:change {}", mask); }
             // metadata attached after the balancing: the transaction grows past what the fee and the size guard have seen
             if items > 0 && late && !set_meta(&mut tb) { return BAD.into(); }
             // every build entry point
@@ -415,8 +417,8 @@ fn exec(toks: &[String]) -> String {
             let body: Option<TransactionBody> = match (&t, &u, &b) { (Ok(tx), _, _) => Some(tx.body()), (_, Ok(tx), _) => Some(tx.body()), (_, _, Ok(bd)) => Some(bd.clone()), _ => None };
             let txlen = match (&t, &u) { (Ok(tx), _) => tx.to_bytes().len(), (_, Ok(tx)) => tx.to_bytes().len(), _ => 0 };
             let okerr = |x: bool| if x { "ok" } else { "err" };
-            let mut s = format!("ok {} F={} B={} T={} U={} L={} {}", fee, f.as_ref().map(|x| x.to_string()).unwrap_or("err".into()),
-                                okerr(b.is_ok()), okerr(t.is_ok()), okerr(u.is_ok()), txlen, outs.len());
+            let mut s = format!("ok {} {} F={} B={} T={} U={} L={} {}", mask, fee, f.as_ref().map(|x| x.to_string()).unwrap_or("err".into()),
+                                okerr(b.is_ok()), okerr(t.is_ok()), okerr(u.is_ok()), txlen, acc);
             match body {
                 None => s.push_str(" none"),
                 Some(body) => {
@@ -426,7 +428,7 @@ fn exec(toks: &[String]) -> String {
                     match body.collateral_return() { Some(r) => { let (c, sz, v) = sizes(&r); s.push_str(&format!(" R {} {} {}", c, sz, v)); } None => s.push_str(" R -") }
                     match body.total_collateral() { Some(c) => s.push_str(&format!(" TC {}", u64::from(c))), None => s.push_str(" TC -") }
                     s.push_str(" |");
-                    for i in outs.len()..os.len() { s.push_str(&format!(" {}", show_ma_shape(&shape_of(&os.get(i).amount().multiasset())))); }
+                    for i in acc.min(os.len())..os.len() { s.push_str(&format!(" {}", show_ma_shape(&shape_of(&os.get(i).amount().multiasset())))); }
                 }
             }
             s
@@ -448,9 +450,10 @@ fn exec(toks: &[String]) -> String {
                 let mut h = vec![0x2Du8; 32]; h[0] = i as u8;
                 if tb.add_regular_input(&src, &TransactionInput::new(&TransactionHash::from_bytes(h).unwrap(), i as u32), &v).is_err() { return BAD.into(); }
             }
+            let mut mask = String::from("A=");
             for (i, od) in outs.iter().enumerate() {
                 let o = match mk_output(od, 20 + i as u8) { Some(o) => o, None => return BAD.into() };
-                if tb.add_output(&o).is_err() { return "err:addout".into(); }
+                if tb.add_output(&o).is_err() { mask.push('x'); } else { mask.push('o'); }
             }
             tb.set_fee(&bn(fee));
             let full = match tb.full_size() { Ok(x) => x, Err(_) => return "err:size".into() };
@@ -460,7 +463,12 @@ fn exec(toks: &[String]) -> String {
             let u = tb.build_tx_unsafe();
             let txlen = match (&t, &u) { (Ok(tx), _) => tx.to_bytes().len(), (_, Ok(tx)) => tx.to_bytes().len(), _ => 0 };
             let okerr = |x: bool| if x { "ok" } else { "err" };
-            format!("{} {} {} B={} T={} U={}", if b { "ok" } else { "toobig" }, full, txlen, okerr(b), okerr(t.is_ok()), okerr(u.is_ok()))
+            // the outputs of whatever body was handed out (a refused add must not have left anything behind)
+            let body: Option<TransactionBody> = match (&t, &u) { (Ok(tx), _) => Some(tx.body()), (_, Ok(tx)) => Some(tx.body()), _ => tb.build().ok() };
+            let mut s = format!("{} {} {} {} B={} T={} U={}", if b { "ok" } else { "toobig" }, mask, full, txlen, okerr(b), okerr(t.is_ok()), okerr(u.is_ok()));
+            match body { None => s.push_str(" none"), Some(body) => { let os = body.outputs(); s.push_str(&format!(" {}", os.len()));
+                for i in 0..os.len() { let (c, sz, v) = sizes(&os.get(i)); s.push_str(&format!(" {} {} {}", c, sz, v)); } } }
+            s
         }
         _ => BAD.into(),
     }
@@ -636,7 +644,7 @@ fn gen(dir: &str) {
             let (akind, alen) = gen_addr(&mut r);
             let mut od = OutD { akind, alen, coin: 0, ma: vec![], dat: gen_dat(&mut r, false), sref: if r.chance(1, 5) { gen_sref(&mut r, false) } else { plain_sref() } };
             od.coin = min_ada_of(&od, cpb).unwrap_or(1_000_000).saturating_add(r.below(3) * r.below(1_000_000));
-            if r.chance(1, 14) { od.coin = od.coin.saturating_sub(1 + r.below(2) * r.below(1000)); }   // a requested output below its minimum
+            if r.chance(1, 6) { od.coin = od.coin.saturating_sub(1 + r.below(2) * r.below(1000)); }   // a requested output below its minimum: refused, the scenario goes on
             outs.push(od);
         }
         let (ck, cl) = if stream == 4 { // long change addresses for the top-up clause
@@ -705,7 +713,9 @@ fn gen(dir: &str) {
         let nout = r.below(3) as usize;
         let outs: Vec<OutD> = (0..nout).map(|_| { let (akind, alen) = gen_addr(&mut r);
             let mut od = OutD { akind, alen, coin: 0, ma: vec![], dat: gen_dat(&mut r, false), sref: plain_sref() };
-            od.coin = min_ada_of(&od, cpb).unwrap_or(1_000_000) + r.below(2) * r.below(500_000); od }).collect();
+            od.coin = min_ada_of(&od, cpb).unwrap_or(1_000_000) + r.below(2) * r.below(500_000);
+            if r.chance(1, 6) { od.coin -= 1 + r.below(500); }   // refused add in the history
+            od }).collect();
         let (ck, cl) = gen_addr(&mut r);
         let dat = if r.chance(1, 3) { gen_dat(&mut r, false) } else { plain_dat() };
         let sref = if via != 0 && r.chance(1, 3) { gen_sref(&mut r, false) } else { plain_sref() };
@@ -724,7 +734,7 @@ fn gen(dir: &str) {
         // learn the fee of this scenario with ample collateral, then place the collateral around required + minimum
         let probe = entry_line(cpb, 5000, 16384, 0, &ins, &vec![], &ck, cl, &plain_dat(), &plain_sref(), 2, &vec![(20_000_000, cma.clone())], pct, 0, 0);
         let res = run_line(&probe);
-        let fee: u64 = res.split_whitespace().nth(1).and_then(|x| x.parse().ok()).unwrap_or(170_000);
+        let fee: u64 = res.split_whitespace().nth(2).and_then(|x| x.parse().ok()).unwrap_or(170_000);
         let required = fee * pct / 100 + 1;
         let ret = OutD { akind: ck.clone(), alen: cl, coin: 0, ma: cma.clone(), dat: plain_dat(), sref: plain_sref() };
         let min_ret = min_ada_of(&ret, cpb).unwrap_or(1_000_000);
@@ -746,7 +756,7 @@ fn gen(dir: &str) {
         let al = aux_len(items);
         let probe = entry_line(cpb, 5000, 1_000_000, 0, &ins, &outs, "b", 57, &plain_dat(), &plain_sref(), via, &cols, 150, items, al);
         let res = run_line(&probe);
-        let full: u64 = res.split_whitespace().nth(2).and_then(|x| x.strip_prefix("F=")).and_then(|x| x.parse().ok()).unwrap_or(2000);
+        let full: u64 = res.split_whitespace().nth(3).and_then(|x| x.strip_prefix("F=")).and_then(|x| x.parse().ok()).unwrap_or(2000);
         for mts in [full - 1, full, full + 1, full.saturating_sub(r.range(2, 40))] {
             emit(&mut out, entry_line(cpb, 5000, mts, 0, &ins, &outs, "b", 57, &plain_dat(), &plain_sref(), via, &cols, 150, items, al));
         }
@@ -769,14 +779,14 @@ fn gen(dir: &str) {
             let (akind, alen) = gen_addr(&mut r);
             let mut od = OutD { akind, alen, coin: 0, ma: gen_ma(&mut r, false), dat: gen_dat(&mut r, false), sref: gen_sref(&mut r, false) };
             od.coin = min_ada_of(&od, 4310).unwrap_or(1_000_000);
-            if r.chance(1, 20) { od.coin -= 1; }
+            if r.chance(1, 5) { od.coin -= 1; }
             body.push_str(&format!(" {}", show_out(&od)));
         }
         body.push_str(&format!(" F {}", r.range(150_000, 5_000_000_000)));
         // measure with a generous limit, then place the limit around the measured size
         let probe: Vec<String> = format!("txsize 1000000 {}", body).split_whitespace().map(|s| s.to_string()).collect();
         let res = guarded(move || exec(&probe));
-        let full: u64 = res.split_whitespace().nth(1).and_then(|x| x.parse().ok()).unwrap_or(300);
+        let full: u64 = res.split_whitespace().nth(2).and_then(|x| x.parse().ok()).unwrap_or(300);
         let mts = match r.below(5) { 0 => full.saturating_sub(1), 1 => full, 2 => full + 1, 3 => r.below(2 * full + 1), _ => 16384 };
         emit(&mut out, format!("txsize {} {}", mts, body));
     }
